@@ -5,6 +5,7 @@ import (
 	"fmt"
 	"math/rand/v2"
 	"sort"
+	"time"
 
 	"github.com/privacybydesign/gabi"
 	"github.com/privacybydesign/gabi/big"
@@ -22,6 +23,8 @@ var (
 )
 
 func bi(x int64) *big.Int { return big.NewInt(x) }
+
+func timeUnix(s int64) time.Time { return time.Unix(s, 0) }
 
 func pow2(n uint) *big.Int { return new(big.Int).Lsh(bigOne, n) }
 
